@@ -788,3 +788,65 @@ def phlc_session(c):
     if called(c)[:2] == ('cf.high_level_commander.land', 'time.sleep'):
         c.ensure('landing-from-tracked-height', 'len(trace[0][1]) == 2 and trace[0][1][0] == lh and trace[0][1][1] * dv == pz - lh and trace[1][1] == (trace[0][1][1],)')
     c.ensure('final-position', 'self.get_position() == (px, py, lh) and self._is_flying is False')
+
+
+@contract('C17', 'phlc.take_off.interrupted', [PHC + '.take_off', PHC + '.land', PHC + '.__exit__'],
+          clause=CL_END + ' [PositionHlCommander: an exception (e.g. KeyboardInterrupt) that leaves take_off() after the take-off command was '
+                          'sent; the land() of the application\'s finally block must still send land and stop]', float_mode='R',
+          bounded='the exception comes out of the climb wait of take_off(); default landing velocity and height')
+def phlc_take_off_interrupted(c):
+    self = phlc(c, flying=False)
+    c.require('connected and dv > 0 and dh >= 0 and dh >= lh')
+    boom = c.raiser('KeyboardInterrupt')
+    state = {'armed': False}
+
+    def sleep(_i, args, _k):
+        if state['armed']:
+            state['armed'] = False
+            return boom()
+        return None
+
+    def takeoff(_i, args, _k):
+        state['armed'] = True           # the next wait (the climb) is interrupted
+        return None
+    c.set(c.getfield(self, '_hl_commander'), 'takeoff', c.ext('cf.high_level_commander.takeoff', returns={'()': takeoff}))
+    c.patch(PHL + ':time', c.ext('time', returns={'sleep': sleep, 'time': 2000.0}))
+    c.call((self, 'take_off'))
+    c.require("raised == 'KeyboardInterrupt' and len(sent('cf.high_level_commander.takeoff')) == 1")
+    c.reset_trace()
+    c.call((self, 'land'))
+    c.ensure('land-returns', 'raised is None')
+    c.ensure('land-and-stop-sent', "calls('cf.high_level_commander') == ('cf.high_level_commander.land', 'cf.high_level_commander.stop')")
+    c.ensure('on-ground-afterwards', 'self._is_flying is False')
+
+
+CMDR = 'cflib.crazyflie.commander:Commander'
+
+
+@contract('C17', 'thread.run.on-the-wire', [SPT + '.run', SPT + '._new_setpoint', CMDR + '.send_hover_setpoint', CMDR + '.set_client_xmode'],
+          clause=CL_HOVER + ' - and the streamed hover set-point reaches the link with the commanded velocities in the requested direction: through '
+                            'the real Commander the packet carries vx, vy, yaw rate and height unchanged, whatever client X-mode the application '
+                            'selected for manual attitude set-points',
+          bounded='one queued set-point; clock readings all equal (the height arithmetic is the subject of thread.run.events*)')
+def thread_on_the_wire(c):
+    c.virtual_time([0.0, 0.0, 0.0])
+    ver = c.int('ver', -1, 255)
+    cf = c.ext('cf', returns={'platform.get_protocol_version': ver})
+    cmd = c.new(CMDR, cf)
+    c.call((cmd, 'set_client_xmode'), c.bool('x_mode'))
+    c.set(cf, 'commander', cmd)
+    t = c.new(SPT, cf)
+    c.let('t', t)
+    for a in ('vx', 'vy', 'yaw'):
+        c.float(a)
+    c.require('-1e30 < vx < 1e30 and -1e30 < vy < 1e30 and -1e30 < yaw < 1e30')
+    c.call((t, 'set_vel_setpoint'), c.get('vx'), c.get('vy'), 0.0, c.get('yaw'))
+    c.call((t, 'stop'))
+    c.reset_trace()
+    c.call((t, 'run'))
+    c.ensure('returns-at-terminate', 'raised is None')
+    c.ensure('one-packet', "len(sent('cf.send_packet')) == 1")
+    c.snapshot('pk', "sent('cf.send_packet')[0][1][0]")
+    c.ensure('generic-setpoint-port', 'pk.port == 7 and pk.channel == 0')
+    c.ensure('velocities-in-the-requested-direction',
+             "bytes(pk.data) == (pack('<Bffff', 5, vx, vy, -yaw, 0.0) if ver <= 8 else pack('<Bffff', 10, vx, vy, yaw, 0.0))")
